@@ -241,3 +241,66 @@ def check_transport(case, run_p, probes):
         probes['shutdown-mid-run'] = 1
     probes['clean-shutdown'] = 1
     return out
+
+
+# ---------------------------------------------------------------------------
+# real-transport spot check (not part of the search)
+# ---------------------------------------------------------------------------
+
+def real_spot(n=3, base_seed=1, max_workers=2, timeout=240):
+    """Runs a few small kernel cases on the real forkserver transport and
+    compares them with the serial run and with the SimMP run of the same case:
+    a confirmation that the simulated transport and the real one give the same
+    trajectory, and that the real workers are reaped.  Returns a list of
+    problems (empty = all equal)."""
+    import json
+    import multiprocessing
+    import signal
+    problems = []
+    done = 0
+    i = 0
+
+    def on_alarm(signum, frame):
+        raise TimeoutError('real forkserver run did not finish within %d s' % timeout)
+    old = signal.signal(signal.SIGALRM, on_alarm)
+    try:
+        while done < n and i < 400:
+            case = json.loads(json.dumps(gen_case(derive(base_seed, 'parallel', i))))
+            i += 1
+            if case['kind'] != 'kernel' or len(case['par']['names']) > max_workers:
+                continue
+            if sum(op[1] for op in case['base']['ops']) > 60:
+                continue
+            validate(case)
+            base = case['base']
+            tail = tail_ops(case)
+            run_s = kernel.execute(json.loads(json.dumps(base)))
+            if run_s.exc is not None:
+                continue
+            run_p = kernel.execute(json.loads(json.dumps(base)), parallel=tuple(case['par']['names']),
+                                   sim_seed=case['par']['sched_seed'], tail_ops=tail)
+            signal.alarm(timeout)
+            try:
+                run_r = kernel.execute(json.loads(json.dumps(base)), parallel=tuple(case['par']['names']),
+                                       sim_seed=None, tail_ops=tail)
+            finally:
+                signal.alarm(0)
+            done += 1
+            a, b, c = rows_of(run_s), rows_of(run_p), rows_of(run_r)
+            if run_r.exc is not None:
+                problems.append('case %d: the real-transport run raised %s' % (i - 1, run_r.exc[1]))
+            elif not (values_equal([list(x) for x in a], [list(x) for x in c])
+                      and values_equal([list(x) for x in b], [list(x) for x in c])):
+                problems.append('case %d: trajectories differ (serial %d rows, SimMP %d rows, forkserver %d rows)' % (
+                    i - 1, len(a), len(b), len(c)))
+            import gc
+            gc.collect()
+            left = multiprocessing.active_children()
+            if left:
+                problems.append('case %d: %d worker process(es) still alive after shutdown %r' % (
+                    i - 1, len(left), case['par']['shutdown']))
+                for p in left:
+                    p.terminate()
+    finally:
+        signal.signal(signal.SIGALRM, old)
+    return done, problems
